@@ -23,6 +23,28 @@ OPEN_ONLY = ['rst7', 'ncrst']            # file objects exist, single-frame writ
 RESTART = ('rst7', 'ncrst')
 SKIPPED_EXTS = {'lh5': 'writer broken in the baseline (always-fail set)', 'gsd': 'gsd package not installed'}
 N_ATOMS = 5
+# the format-specific savers (Trajectory.save dispatches to them by extension; called directly they take any file name)
+SAVE_METHOD = {'xtc': 'save_xtc', 'trr': 'save_trr', 'pdb': 'save_pdb', 'pdb.gz': 'save_pdb', 'dcd': 'save_dcd', 'h5': 'save_hdf5',
+               'nc': 'save_netcdf', 'netcdf': 'save_netcdf', 'ncdf': 'save_netcdf', 'ncrst': 'save_netcdfrst', 'crd': 'save_mdcrd',
+               'mdcrd': 'save_mdcrd', 'lammpstrj': 'save_lammpstrj', 'xyz': 'save_xyz', 'xyz.gz': 'save_xyz', 'gro': 'save_gro',
+               'rst7': 'save_amberrst7', 'dtr': 'save_dtr'}
+
+
+def _load_named(md, ext, path, top, scratch):
+    """load a file of format ext whatever it is called (a copy under a dispatchable name where the registry needs one)"""
+    lf = OPENW_FMT.get(ext, ext)
+    if not path.lower().endswith('.' + ext) or not path.endswith('.' + ext):
+        os.makedirs(scratch, exist_ok=True)
+        q = os.path.join(scratch, 'named_%d.%s' % (len(os.listdir(scratch)), ext))
+        shutil.copyfile(path, q)
+        path = q
+    return e2_writer.load_file(md, lf, path, top)
+
+
+def _save(t, path_arg, ext, via_method, **kw):
+    if via_method:
+        return getattr(t, SAVE_METHOD[ext])(path_arg, **kw)
+    return t.save(path_arg, **kw)
 
 
 def setup_worker(check, spec):
@@ -57,6 +79,10 @@ def generate(check, rng, tier, run_index):
         pre = rng.weighted([('absent', 2), ('valid_short', 3), ('valid_long', 4), ('empty', 1), ('junk', 2)])
         stem = rng.choice(['p%d', 'p%d', 'Traj_%d', 'RUN%d', 'my.run-%d', 'run %d', 'sn%d.out'])      # upper case, dots, dashes, blanks and a second extension-like part are deliberate
         ent = {'name': (stem % k) + '.' + ext, 'ext': ext, 'pre': pre, 'pre_frames': 1 if pre == 'valid_short' else rng.randint(3, 6)}
+        if ext in ('h5', 'nc', 'xtc', 'trr', 'dcd', 'gro', 'xyz', 'lammpstrj', 'mdcrd', 'pdb') and rng.chance(0.1):
+            # a name the registry cannot dispatch on (other suffix, other case, none): only the format's own saver is used on it
+            ent['odd'] = rng.choice(['.hdf5', '.H5'] if ext == 'h5' and rng.chance(0.6) else ['.out', '.dat', '', '.' + ext.upper()])
+            ent['name'] = (stem % k) + ent['odd']
         if pre != 'absent' and ext != 'dtr' and rng.chance(0.12):
             ent['link'] = True       # what exists at the path is a symbolic link to the file (kept in another directory)
         if ext in RESTART and rng.chance(0.6):
@@ -71,11 +97,14 @@ def generate(check, rng, tier, run_index):
     for _ in range(nops):
         p = rng.below(npaths)
         kind = rng.weighted([('save', 10), ('open_w', 5), ('read', 6)])
+        if 'odd' in paths[p]:
+            kind = 'save'
         if kind == 'save':
             # zero frames: what a selection like t[t.time > tmax] hands to save() when nothing matches
             ops.append({'op': 'save', 'p': p, 'frames': rng.weighted([(1, 8), (2, 6), (3, 4), (rng.randint(4, 12), 4), (10, 2), (0, 1)]),
                         'fo': rng.chance(0.5), 'seed': rng.below(1 << 20), 'fo_as': rng.weighted([('bool', 5), ('np', 2), ('int', 1)]),
-                        'cell': rng.choice([None, 'ortho', 'ortho', 'tric'])})      # trajectories without a unit cell take other branches of several writers
+                        'cell': rng.choice([None, 'ortho', 'ortho', 'tric']),       # trajectories without a unit cell take other branches of several writers
+                        'via': rng.weighted([('save', 3), ('method', 1)])})         # Trajectory.save(...) or the format's own save_xxx(...)
         elif kind == 'open_w':
             ops.append({'op': 'open_w', 'p': p, 'fo': rng.chance(0.5), 'then': rng.choice(['close', 'write_close', 'write_close']),
                         'frames': rng.randint(1, 3), 'seed': rng.below(1 << 20), 'fo_as': rng.weighted([('bool', 5), ('np', 2), ('int', 1)])})
@@ -184,7 +213,7 @@ def _same_as_fresh(root, fresh_root, rels_pairs):
             ba = f.read()
         with open(b, 'rb') as f:
             bb = f.read()
-        if a.lower().endswith('.dcd') and len(ba) >= 260 and len(bb) >= 260:
+        if ba[4:8] == b'CORD' and bb[4:8] == b'CORD' and len(ba) >= 260 and len(bb) >= 260:
             # the two 80-character remark lines of the DCD header (bytes 100..259) are padded by the writer with whatever was
             # in its buffer (not initialised): they carry no trajectory content and are left out of the comparison
             ba = ba[:100] + b'\0' * 160 + ba[260:]
@@ -247,10 +276,10 @@ def _execute(check, case, workdir):
         if ent['pre'] in ('valid_short', 'valid_long'):
             n = ent['pre_frames']
             if ext in RESTART:
-                _traj(1, 7 + k).save(p)
+                _save(_traj(1, 7 + k), p, ext, ('odd' in ent))
                 st = {'valid': True, 'n': 1}
             else:
-                _traj(n, 7 + k).save(p)
+                _save(_traj(n, 7 + k), p, ext, ('odd' in ent))
                 st = {'valid': True, 'n': n}
         if ext in RESTART and ent.get('pre_numbered'):
             npre = ent['pre_numbered']
@@ -327,7 +356,10 @@ def _execute(check, case, workdir):
             flags = 'fo=%d,%s,%s' % (op['fo'], 'multi' if n > 1 else ('single' if n else 'empty'), pre_kind)
             err = None
             try:
-                t.save(pa, force_overwrite=fo_val)
+                via_method = ('odd' in ent) or op.get('via') == 'method'
+                if via_method:
+                    res.probe('saved_through_format_method')
+                _save(t, pa, ext, via_method, force_overwrite=fo_val)
             except Exception as e:
                 err = e
             after = snapshot(root)
@@ -355,7 +387,7 @@ def _execute(check, case, workdir):
                 shutil.rmtree(fresh)
             os.makedirs(fresh)
             fp = os.path.join(fresh, ent['name'])
-            _traj(n, op['seed'], op.get('cell', 'ortho'), ext).save(fp)
+            _save(_traj(n, op['seed'], op.get('cell', 'ortho'), ext), fp, ext, ('odd' in ent) or op.get('via') == 'method')
             ftargets = _targets(fp, ext, n)
             diffs = _same_as_fresh(root, fresh, list(zip(targets, ftargets)))
             if exists:
@@ -367,8 +399,8 @@ def _execute(check, case, workdir):
                 same_content = False
                 try:
                     if ext not in RESTART or n == 1:
-                        a = e2_writer.load_file(md, OPENW_FMT.get(ext, ext), p, top) if ext not in RESTART else md.load(p, top=top)
-                        b = e2_writer.load_file(md, OPENW_FMT.get(ext, ext), fp, top) if ext not in RESTART else md.load(fp, top=top)
+                        a = _load_named(md, ext, p, top, os.path.join(workdir, 'named')) if ext not in RESTART else md.load(p, top=top)
+                        b = _load_named(md, ext, fp, top, os.path.join(workdir, 'named')) if ext not in RESTART else md.load(fp, top=top)
                         same_content = e2_writer.same_load(a, b) is None and all(d[1] == 'bytes' and d[2] == d[3] for d in diffs)
                 except Exception:
                     same_content = False
